@@ -865,6 +865,15 @@ func (p *Plan) Run(tr *Trace) {
 			}
 		}
 		c0, c1 := &p.closers[0], &p.closers[1]
+		if p.Close == nil {
+			// a failed constructor: there is nothing to close; the case only has to end clean
+			if allOps() {
+				break
+			}
+			c0, c1 = &closer{started: true}, &closer{started: true}
+			c0.done.Store(true)
+			c1.done.Store(true)
+		}
 		switch {
 		case !c0.started && ((p.CloseAt >= 0 && step >= p.CloseAt) || allOps()):
 			p.startClose(tr, 0)
@@ -911,7 +920,7 @@ func (p *Plan) Run(tr *Trace) {
 		}
 	}
 	// operations on the closed instance
-	if p.closers[0].done.Load() && p.closers[1].done.Load() {
+	if p.Close != nil && p.closers[0].done.Load() && p.closers[1].done.Load() {
 		for i, o := range p.PostOps {
 			p.startOp(tr, len(p.Ops)+i, o)
 			for k := 0; k < 200 && !o.done.Load(); k++ {
